@@ -18,8 +18,8 @@ BASE = {
 
 PROFILES = {
     # property -> (world constraints, weight overrides, options)
-    "C01": dict(world={}, w={"primitive": 5, "enable": 0.2, "disable": 0.1}, reinvert=0.6, steps=(8, 60)),
-    "C02": dict(world={}, w={"undo": 6, "redo": 4, "enable": 0.1, "disable": 0.05}, steps=(10, 80), bursty=True),
+    "C01": dict(world={}, w={"primitive": 5, "enable": 0.2, "disable": 0.1}, reinvert=0.6, steps=(8, 60), nopix_rare=True),
+    "C02": dict(world={}, w={"undo": 6, "redo": 4, "enable": 0.1, "disable": 0.05}, steps=(10, 80), bursty=True, nopix_rare=True),
     "C03": dict(world={"p_seg": 0.3}, w={"add_edge": 7, "add_node": 4, "paint": 2, "undo": 4, "redo": 2.5, "enable": 0, "disable": 0}, steps=(10, 60), wild_edges=True, bursty=True),
     "C04": dict(world={"p_seg": 0.3}, w={"enable": 0.05, "disable": 0.02, "restart": 0.2}, steps=(10, 60)),
     "C05": dict(world={"p_seg": 0.3}, w={"add_edge": 5, "delete_edge": 4, "delete_node": 4, "enable": 0.05, "disable": 0.02, "restart": 0.2}, steps=(10, 60), division_bias=True),
@@ -61,7 +61,7 @@ def swarm(rng: random.Random, prop: str, tier: str) -> dict:
         "f1": rng.choice(p.get("f1", (0.0, 0.1, 0.1, 0.4))),
         "force": rng.choice([0.1, 0.5, 0.9]),
         "reinvert": p.get("reinvert", 0.0),
-        "flags": {k: True for k in ("bursty", "wild_edges", "division_bias", "explicit_tracks", "iou_toggle", "toggle_ids", "trap", "io", "subs", "nopix") if p.get(k)},
+        "flags": {k: True for k in ("bursty", "wild_edges", "division_bias", "explicit_tracks", "iou_toggle", "toggle_ids", "trap", "io", "subs", "nopix", "nopix_rare") if p.get(k)},
         "subset": p.get("subset", 0.5),
         "f2": rng.choice([0.0, 0.0, 0.6]) if p.get("io") else 0.0,
         "sweep": 0.15 if (prop in ("C14", "C16") and tier == "thorough") else 0.0,
@@ -114,11 +114,11 @@ def gen_op(rng: random.Random, cfg: dict, kind: str | None = None) -> dict:
     if kind == "add_node":
         op.update(
             t=rng.randrange(12), track=_track(rng, cfg),
-            id=["fresh", 0] if rng.random() < 0.6 else ["explicit", rng.randint(1, 60)],
+            id=["fresh", 0] if rng.random() < 0.6 else ["explicit", rng.randint(0, 60)],
             force=force, reinvert=reinv,
             pix={"o": [rng.random() for _ in range(3)], "ext": [rng.randint(1, 3) for _ in range(3)], "pat": rng.choice(["box", "box", "scatter", "single"])},
             pos=[rng.random() for _ in range(3)], bogus_attrs=rng.random() < 0.15, reuse_dict=rng.random() < 0.3,
-            no_pixels_with_pos=bool(fl.get("nopix")) and rng.random() < 0.01,
+            no_pixels_with_pos=rng.random() < (0.01 if fl.get("nopix") else 0.004 if fl.get("nopix_rare") else 0.0),
             # a client that fills in the lineage id itself: the one the named track has
             # when the call is made, or the one of the node whose attributes it copied
             lineage=rng.choice([None] * 8 + ["of_track", "of_any"]),
@@ -179,6 +179,7 @@ def gen_op(rng: random.Random, cfg: dict, kind: str | None = None) -> dict:
             order=rng.choice(["fwd", "fwd", "rev"]), frames=rng.choice([1, 1, 1, 2, 3]),
             big=rng.random() < (0.35 if fl.get("trap") else 0.1),
             noop=rng.choice([None] * 30 + ["bg", "empty"]),
+            merge_frames=rng.random() < 0.5, frames_prev=rng.random() < 0.5, extra_first=rng.random() < 0.5,
         )
         if inval:
             op["invalid"] = "two_frames"
@@ -216,6 +217,9 @@ def gen_op(rng: random.Random, cfg: dict, kind: str | None = None) -> dict:
         if kind == "reimport" and cfg.get("tier") == "thorough":
             fmts = fmts + ["csv_names"]
         op.update(fmt=rng.choice(fmts))
+        if kind == "save":
+            # Ctrl+S: save again into the directory of this session's last save
+            op["reuse_dir"] = rng.random() < 0.5
         if kind == "restart":
             # crash after unsaved edits: rebuild from the last acknowledged save, if any
             op["late"] = rng.random() < 0.4
